@@ -1,4 +1,5 @@
 import warnings
+from contextlib import suppress
 
 import numpy as np
 from scipy.optimize import (
@@ -957,11 +958,14 @@ def _get_constraints(constraints):
             if "fun" not in constraint or not callable(constraint["fun"]):
                 raise ValueError("The constraint function must be callable.")
             nonlinear_constraints.append(
-                {
-                    "fun": constraint["fun"],
-                    "type": constraint["type"],
-                    "args": constraint.get("args", ()),
-                }
+                NonlinearConstraint(
+                    _get_dict_constraint_function(
+                        constraint["fun"],
+                        constraint.get("args", ()),
+                    ),
+                    0.0,
+                    0.0 if constraint["type"] == "eq" else np.inf,
+                )
             )
         else:
             raise TypeError(
@@ -970,6 +974,23 @@ def _get_constraints(constraints):
                 "scipy.optimize.NonlinearConstraint, or dict."
             )
     return linear_constraints, nonlinear_constraints
+
+
+def _get_dict_constraint_function(fun, args):
+    """
+    Build the function of a constraint given as a dictionary.
+    """
+    if not isinstance(args, tuple):
+        args = (args,)
+    if len(args) == 0:
+        return fun
+
+    def wrapper(x):
+        return fun(x, *args)
+
+    with suppress(AttributeError):
+        wrapper.__name__ = fun.__name__
+    return wrapper
 
 
 def _set_default_options(options, n):
